@@ -30,6 +30,24 @@ fn gen_burst(rng: &mut Rng) -> Scenario {
         }
         prods.push(ops);
     }
+    // connections that say nothing for a while (or ever): the others must not wait for them
+    let silent = rng.below(3);
+    for _ in 0..silent {
+        let mut ops = vec![];
+        if rng.chance(1, 2) {
+            ops.push(POp::Sleep(*rng.pick(&[0u64, 50])));
+        }
+        ops.push(POp::Connect);
+        ops.push(POp::Sleep(*rng.pick(&[2_000u64, 700_000, 7_000_000])));
+        if rng.chance(1, 2) {
+            ops.push(POp::Push(900_000 + next));
+            next += 1;
+        }
+        if rng.chance(1, 2) {
+            ops.push(POp::Close);
+        }
+        prods.insert(rng.below(prods.len() + 1), ops);
+    }
     for p in 0..late {
         // longer than the pool's idle period (5 s): the surplus workers of the burst have retired
         let d = *rng.pick(&[5_200_000u64, 6_500_000, 12_000_000]);
@@ -370,7 +388,7 @@ fn run_kind(id: usize, rng: &mut Rng, pool_view: bool) -> String {
                         COp::Timeout(t) => {
                             sched::log(&format!("call to{}", t));
                             h.lock().unwrap()[ci].push(format!("to{}:{}:-:blocked", t, t0));
-                            let r = server.recv_timeout(Duration::from_micros(t));
+                            let r = server.recv_timeout(ctl_queue::dur_of(t));
                             (format!("to{}", t), Some(finish(r.ok().flatten())))
                         }
                         COp::Sleep(d) => {
@@ -415,6 +433,12 @@ fn run_kind(id: usize, rng: &mut Rng, pool_view: bool) -> String {
                         POp::Unblock => {
                             sched::log("unblock");
                             server.unblock()
+                        }
+                        POp::Connect => {
+                            if conn.is_none() {
+                                conn = verif_rt::net::TcpStream::connect(addr).ok();
+                                sched::log(&format!("connected {}", pi));
+                            }
                         }
                         POp::Close => {
                             if conn.is_some() {
